@@ -2,9 +2,10 @@
 Require Extraction.
 Require ExtrOcamlBasic.
 From Coq Require Import ZArith NArith.
-From GV Require Import Pack.NumStrModel Pack.Model.
+From GV Require Import Pack.NumStrModel Pack.Model Pack.QuoteModel.
 Extraction Language OCaml.
 Extraction "model.ml" Z.add N.add Nat.add Pos.add
   Model.pack Model.unpack Model.packsize Model.to_i64
   NumStrModel.format_int NumStrModel.parse_int NumStrModel.fmt_unsigned NumStrModel.fmt_signed
-  NumStrModel.c_unsigned.
+  NumStrModel.c_unsigned NumStrModel.parse_digits
+  QuoteModel.quote QuoteModel.lua_string_literal QuoteModel.is_print_tab.
